@@ -5,6 +5,8 @@ import (
 	"fmt"
 	"os"
 	"path/filepath"
+	"runtime"
+	"runtime/debug"
 	"sort"
 	"strings"
 	"time"
@@ -232,6 +234,8 @@ func runJob(ld *loaded, ph *PkgHarness, job Job) (res JobResult) {
 
 // workerMain: zx worker <jobs.json> <outdir>; all jobs must share one package.
 func workerMain(args []string) int {
+	runtime.GOMAXPROCS(2)
+	debug.SetGCPercent(400)
 	data, err := os.ReadFile(args[0])
 	if err != nil {
 		fmt.Fprintln(os.Stderr, err)
